@@ -699,7 +699,7 @@ class FieldsJson(FieldValueBase):
                 for attribute_name, validator_class in cls._get_attr_to_validator_type_dict(attr_fields_dict).items()
                 if validator_class.get_canonical_name() in raw_values
             }), len(parsable)
-        except TypeError as e:
+        except (TypeError, ValueError, OverflowError) as e:
             six.raise_from(InvalidValue(_to_printable(parsable), cls, 'value'), e)
 
     def compose(self):
